@@ -343,6 +343,10 @@ func (c07) Run(t TestingT, scn json.RawMessage, tape *Tape) *Outcome {
 						cache.Reset()
 						tc.Out[key] = "reset"
 					}
+					_, fired, _, _ := rc.Snapshot()
+					for k, n := range fired {
+						tc.Out["fired:"+k] = fmt.Sprint(atoiOr0(tc.Out["fired:"+k]) + n)
+					}
 				}
 			})
 		}
@@ -368,6 +372,11 @@ func (c07) Run(t TestingT, scn json.RawMessage, tape *Tape) *Outcome {
 		if outs == nil {
 			o.Violate("C07/client-unfinished", "client %s did not finish", name)
 			continue
+		}
+		for k, v := range outs {
+			if strings.HasPrefix(k, "fired:") {
+				o.Fire(k[len("fired:"):], atoiOr0(v))
+			}
 		}
 		if p, ok := outs["panic"]; ok {
 			o.Violate("C07/panic", "client %s panicked: %s", name, p)
@@ -454,4 +463,15 @@ func newRaceReports(prop string) []Violation {
 		out = append(out, Violation{Class: prop + "/data-race", Detail: "data race between " + strings.Join(tops, " and ") + "\n" + rep})
 	}
 	return out
+}
+
+func atoiOr0(s string) int {
+	n := 0
+	for _, c := range s {
+		if c < '0' || c > '9' {
+			return 0
+		}
+		n = n*10 + int(c-'0')
+	}
+	return n
 }
